@@ -33,6 +33,8 @@ def termMaps : List (String × MapTable) :=
    ("cursorKeysNormalMode", strTable cursorKeysNormalMode),
    ("applicationKeymap", strTable applicationKeymap),
    ("numericKeymap", strTable numericKeymap),
+   ("keypadApplicationMode", strTable keypadApplicationMode),
+   ("keypadNumericMode", .ints (keypadNumericMode.map fun e => ([e.1], e.2))),
    ("xtermKeymap", .structs [("number", xtermKeymap.map fun e => ([e.1], e.2.1)),
                              ("final", xtermKeymap.map fun e => ([e.1], e.2.2))])]
 
